@@ -76,7 +76,7 @@ Definition ex_item : item :=
 Example script_case_satisfiable :
   transient ex_item = true
   /\ exists steps sh',
-       run_item (mkSh ex_free false) ex_item = (steps, sh', false)
+       run_item (mkSh ex_free false false) ex_item = (steps, sh', false)
        /\ length steps = 7%nat
        /\ k_tab (sh_k sh') = k_tab ex_free.
 Proof.
@@ -122,9 +122,9 @@ Definition ex_dot : item :=
 
 Example dot_case_satisfiable :
   transient ex_dot = true
-  /\ (exists steps sh', run_item (mkSh ex_free false) ex_dot = (steps, sh', false)
+  /\ (exists steps sh', run_item (mkSh ex_free false false) ex_dot = (steps, sh', false)
                         /\ length steps = 4%nat /\ k_tab (sh_k sh') = k_tab ex_free)
-  /\ (exists steps sh', run_item (mkSh (ex_tight 11) false) ex_dot = (steps, sh', false)
+  /\ (exists steps sh', run_item (mkSh (ex_tight 11) false false) ex_dot = (steps, sh', false)
                         /\ length steps = 1%nat /\ k_tab (sh_k sh') = k_tab ex_free).
 Proof.
   split; [reflexivity|]. split; eexists; eexists; (split; [vm_compute; reflexivity|]); split; reflexivity.
